@@ -9,6 +9,7 @@ from allmydata.storage.crawler import (
     _dump_json_to_file,
 )
 from allmydata.storage.shares import get_share_file
+from allmydata.util import fileutil
 from allmydata.storage.common import UnknownMutableContainerVersionError, \
      UnknownImmutableContainerVersionError
 from twisted.python import log as twlog
@@ -57,7 +58,9 @@ class _HistorySerializer:
         """
         Serialize the existing data as JSON.
         """
-        _dump_json_to_file(new_history, self._path)
+        tmpfile = self._path.siblingExtension(".tmp")
+        _dump_json_to_file(new_history, tmpfile)
+        fileutil.move_into_place(tmpfile.path, self._path.path)
         return None
 
 
